@@ -4,7 +4,16 @@ from replay import instr
 
 
 def scenarios(seed, tier, failed):
-    return instr.scenarios(seed, tier, failed, live=('C21' == 'C21'))
+    # a run long enough to saturate the trace ring buffer, on both clocks
+    for coarse in (True, False):
+        yield {'kind': 'chart', 'parent': [-1, 0, 0], 'init': [None, None, None], 'start': 1, 'host': 'HsmWithQueues',
+               'react': {'0': {}, '1': {'S0': ['tran', 2], 'S1': ['handled', None]}, '2': {'S0': ['tran', 1]}},
+               'events': (['S0'] * 6 + ['S1']) * 100, 'spy': True, 'live_spy': False, 'live_trace': True,
+               'coarse_clock': coarse, 'exit_handled': [True] * 3, 'entry_handled': [True] * 3, 'timeout': 60}
+    for k, sc in enumerate(instr.scenarios(seed, tier, failed, live=True)):
+        if k % 4 == 0 and sc['live_spy']:
+            sc['callback_scribbles'] = True
+        yield sc
 
 
 def run(sc):
